@@ -46,7 +46,7 @@ macro "bridge" : tactic => `(tactic| (
         toNat_eq_lit _ 64 (by decide), gt_lit _ 63 (by decide), ge_lit _ 64 (by decide), getLsbD_toNat,
         BitVec.ofNat_toNat, BitVec.setWidth_eq]
       try unfold Data
-      constructor <;> bv_decide))
+      constructor <;> bv_decide (config := { timeout := 120 })))
 
 theorem bridge_packLE (d : BitVec 64) : Data_PackLittleEndian_ret d = packLE d ∧ Data_PackLittleEndian_ok d = true := by
   bridge
